@@ -508,15 +508,24 @@ def call_sites(ctx):
                     continue
                 got, base = arg_tag(a)
                 if got is None:
-                    raise AnalysisError(
-                        f'{mod.rel}:{c.lineno}: unrecognised argument idiom '
-                        f'`{ast.unparse(a)}` in kernel call')
+                    # a local: what it may stand for (all its bindings, also
+                    # those of the enclosing function for a closure)
+                    chain = [fn] + [x_ for x_ in au.ancestors(fn)
+                                    if isinstance(x_, ast.FunctionDef)]
+                    vals = [arg_tag(v_) for v_ in au.values_of(a, chain)]
+                    if any(g_ is None for g_, _b in vals):
+                        raise AnalysisError(
+                            f'{mod.rel}:{c.lineno}: unrecognised argument '
+                            f'idiom `{ast.unparse(a)}` in kernel call')
+                    gots = {g_ for g_, _b in vals}
+                    base = sorted({b_ for _g, b_ in vals})[0]
+                    got = t if gots == {t} else sorted(gots - {t})[0]
                 bases.append(base)
                 if got != t:
                     ok = False
                     ctx.fail('C02.O5.roles', cons + f' arg {i}',
-                             f'argument `{ast.unparse(a)}` is passed where '
-                             f'the kernel expects {t}', where)
+                             f'argument `{ast.unparse(a)}` may be {got} '
+                             f'where the kernel expects {t}', where)
             if ok:
                 # first and second field triple from two different objects,
                 # each triple from one object; coefficients from one model
